@@ -329,6 +329,12 @@ def mix_files():
     files.update(seeds.dry_set(TS, 142, 2))
     files.update(seeds.stringly_set(PY, 143, 2))
     files.update(seeds.stringly_set(TS, 144, 2))
+    # files whose header silences ONE linter by name while they hold findings of several: switching that linter (or any
+    # other) on or off in the configuration must not move the findings of the rest
+    supp = ("magic", "nesting", "print", "stateless", "lbyl", "pipeline")
+    for k, named in enumerate(supp):
+        body, _, _ = seeds.compose(PY, [seeds.seed(f, PY, 181 + 10 * k + i, i) for i, f in enumerate(supp)], header=False)
+        files[f"supp_{named}.py"] = f"# thailint: ignore-file[{seeds.FAMILY_RULE[named].split('.')[0]}]\n" + body
     return files
 
 
